@@ -21,7 +21,10 @@ NSHARDS = 16
 
 def shard_args(tier, seed):
     n = BUDGET[tier] // NSHARDS
-    return [{"n": n, "seed": seed * 1000 + i} for i in range(NSHARDS)]
+    shards = [{"n": n, "seed": seed * 1000 + i} for i in range(NSHARDS)]
+    if tier == "thorough":
+        shards.append({"n": 0, "seed": seed, "suite": True})    # the repository's own tests under the M-query / M-sid monitors
+    return shards
 
 
 def floors(m, tier):
@@ -287,6 +290,11 @@ def worker(args):
         fin()
         return rec.result()
     usable = [t for t in model.templates if vocab.usable(t)]
+    if args.get("suite"):
+        from lib import suite_shard
+        suite_shard.run_repo_tests(rec)
+        fin()
+        return rec.result()
     for it in range(args["n"]):
         t0 = usable[it % len(usable)]
         if rng.random() < 0.5:
